@@ -652,12 +652,24 @@ def genMerge (rng : Rng) (broken : Bool) : Rng × Array String :=
   (s0'.rng, s0'.lines)
 
 /-- render profile: a history, then every text export of the graph and of each present (and one absent) vertex;
-    repeated once more after some further calls -/
-def renderLines (s : GenSt) : GenSt :=
+    repeated once more after some further calls. Here: every export of the graph held by handle `h` (which has the
+    content of `s.r`) -/
+def renderLinesOn (s : GenSt) (h : String) : GenSt :=
   let ks := R.keys s.r s.cap
-  let ls := #[s!"xml {s.h}", s!"dot {s.h}", s!"debug {s.h}", s!"display {s.h}", s!"observe {s.h}"] ++
-    (ks.toArray.flatMap (fun v => #[s!"inspect {s.h} {v}", s!"vprint {s.h} {v}"]))
+  let ls := #[s!"xml {h}", s!"dot {h}", s!"debug {h}", s!"display {h}", s!"observe {h}"] ++
+    (ks.toArray.flatMap (fun v => #[s!"inspect {h} {v}", s!"vprint {h} {v}"]))
   { s with lines := s.lines ++ ls }
+
+def renderLines (s : GenSt) : GenSt := renderLinesOn s s.h
+
+/-- the same exports of a reloaded copy and of a clone (what an export reads must be what `save` writes and what
+    `clone` copies) -/
+def renderCopies (s : GenSt) : GenSt :=
+  let (rng, k) := s.rng.below 3
+  let s := { s with rng := rng }
+  if k = 0 then renderLinesOn { s with lines := s.lines.push s!"reload {s.h} g2" } "g2"
+  else if k = 1 then renderLinesOn { s with lines := s.lines.push s!"clone {s.h} g3" } "g3"
+  else s
 
 /-- a second graph with the same content built in another way: larger capacity, vertices added in descending
     order, edges bound in reverse order, data put last and never read (so no group structure or read status is
@@ -691,6 +703,7 @@ def genRender (rng : Rng) (len : Nat) : Rng × Array String :=
   let s := (List.range (len / 2)).foldl (fun s _ => s.stepRandom profRender) s
   let s := renderLines s
   let s := twinLines s
+  let s := renderCopies s
   let s := s.drain
   let s := renderLines s
   (s.rng, s.lines)
